@@ -1699,6 +1699,19 @@ impl<'a, C: Crypto> TransportRunner<'a, C> {
                     packet
                 );
             }
+            Err(e)
+                if matches!(e.code(), ErrorCode::NoSession)
+                    && !packet.header.plain.is_encrypted() =>
+            {
+                // An unsecured message which is neither a candidate for a new session
+                // nor part of an existing one (e.g. a stray status report or a late
+                // acknowledgement). There is no session the peer could be told about, and
+                // answering it would make two such nodes answer each other's answers forever.
+                mrp_log!(
+                    "\n>>RCV {}\n      => Unsecured message without a session, dropping",
+                    packet
+                );
+            }
             Err(e) if matches!(e.code(), ErrorCode::NoSession) => {
                 // Per Matter Core spec, when a session-bearing
                 // message arrives for which we have no matching secure session
